@@ -145,12 +145,22 @@ def plan(tier, seed):
     return shards
 
 
-def one_archive(R, sandbox, members, dstform, via, idx):
+def one_archive(R, sandbox, members, dstform, via, idx, prelude=None):
     """build the archive, extract with the real code under the monitors"""
     from mwlib.core import nuwiki
     S = os.path.join(sandbox, "s%d" % idx)
     os.makedirs(os.path.join(S, "dst-evil"))
     os.makedirs(os.path.join(S, "outside"))
+    if prelude:
+        # an earlier, harmless extraction in the same process into a sibling directory (what it leaves behind -
+        # directories, caches - must not help a later archive out of its own destination)
+        p0 = os.path.join(S, "outside", "pre.zip")
+        with zipfile.ZipFile(p0, "w") as zf0:
+            for m in prelude:
+                zf0.writestr(m, b"earlier:" + m.encode())
+        with zipfile.ZipFile(p0) as zf0:
+            nuwiki.extractall(zf0, os.path.join(S, "dst0"))
+        R.count("preludes_extracted")
     for p in ("dstX", "parent.txt", "dst-evil/keep.txt", "outside/keep.txt"):
         with open(os.path.join(S, p), "w") as f:
             f.write("decoy " + p)
@@ -210,7 +220,7 @@ def one_archive(R, sandbox, members, dstform, via, idx):
     after = snapshot(S, dst)
     R.count("extractions")
     R.count("audit_events_inside", _state["inside"])
-    case = {"members": members, "dst": dstform, "via": via}
+    case = {"members": members, "dst": dstform, "via": via, "prelude": prelude}
     nontrivial = any((".." in m) or m.startswith("/") or m.startswith("$S") or "dst-evil" in m or "dstX" in m
                      for m in members)
     R.case(h64(members, dstform, via), nontrivial, sample=case)
@@ -286,8 +296,14 @@ def run_shard(desc, R):
                     members.append(name)
                 # a file and a directory of the same name make extraction fail for reasons unrelated to C15
                 idx += 1
+                prelude = None
+                if rnd.random() < 0.2:
+                    prelude = ["images/a.png", "a/b/c.txt", "nfo.json"]
+                    members.insert(rnd.randint(0, len(members)), rnd.choice(
+                        ("../dst0/images/evil.txt", "../dst0/a/b/evil", "x/../../dst0/images/e2", "../dst0/a/evil3", "$S/dst0/images/e4")))
                 one_archive(R, sandbox, members, rnd.choice(forms),
-                            rnd.choice(("adapt", "make_wiki", "make_wiki_multi", "extractall", "extractall", "extractall")), idx)
+                            rnd.choice(("adapt", "make_wiki", "make_wiki_multi", "extractall", "extractall", "extractall")), idx,
+                            prelude=prelude)
     finally:
         shutil.rmtree(sandbox, ignore_errors=True)
 
@@ -299,7 +315,7 @@ def replay(case):
     os.makedirs(sandbox, exist_ok=True)
     R = Recorder()
     try:
-        one_archive(R, sandbox, case["members"], case["dst"], case["via"], 1)
+        one_archive(R, sandbox, case["members"], case["dst"], case["via"], 1, prelude=case.get("prelude"))
     finally:
         shutil.rmtree(sandbox, ignore_errors=True)
     return [(v["key"], v["what"], None) for v in R.violations]
